@@ -191,6 +191,19 @@ def rule_frozen_value(repo: Repo, rep: Report) -> int:
                 rep.violation("FROZEN-VALUE", ig, f"BP init: frozen_zeros -> {unparse(a[0].value)}, else {unparse(b[0].value)}", "a frozen 0 is initialised with a negative LLR (bit 1): polarity inverted relative to the library convention and the encoder")
                 done = True
     if not done:
+        # the same choice as a conditional expression: R[:, 0, frozen] = A if self.frozen_zeros else B (or the negated test)
+        for s_ in stmts_of(ig.body):
+            if isinstance(s_, ast.Assign) and len(s_.targets) == 1 and unparse(s_.targets[0]) == "R[:, 0, self.frozen_ind]" and isinstance(s_.value, ast.IfExp) and unparse(s_.value.test) in ("self.frozen_zeros", "not self.frozen_zeros"):
+                pos_arm, neg_arm = (s_.value.body, s_.value.orelse) if unparse(s_.value.test) == "self.frozen_zeros" else (s_.value.orelse, s_.value.body)
+                it = Polarity(ig, repo, positives={"self.clip"})
+                sa, sb = it.eval(pos_arm, {}).sign, it.eval(neg_arm, {}).sign
+                if sa == "pos" and sb == "neg":
+                    rep.ok("FROZEN-VALUE", ig, f"BP init: {unparse(s_)[:90]}", "frozen bit 0 <-> large positive LLR (positive = bit 0), frozen bit 1 <-> large negative")
+                    done = True
+                elif sa == "neg" and sb == "pos":
+                    rep.violation("FROZEN-VALUE", ig, f"BP init: {unparse(s_)[:90]}", "a frozen 0 is initialised with a negative LLR (bit 1): polarity inverted relative to the library convention and the encoder", node=s_)
+                    done = True
+    if not done:
         rep.undecided("FROZEN-VALUE", ig, "BP frozen initialisation", "not recognised")
     vals = {attr_chain(s.targets[0]): unparse(s.value) for s in stmts_of(repo.func(PBP, "BeliefPropagationPolarDecoder.__init__").body) if isinstance(s, ast.Assign) and attr_chain(s.targets[0])}
     rep.shape(vals.get("self.frozen_zeros") == "encoder.frozen_zeros", vals.get("self.frozen_zeros") in ("True", "False", "not encoder.frozen_zeros"), "FROZEN-VALUE", repo.func(PBP, "BeliefPropagationPolarDecoder.__init__"), f"BP takes frozen_zeros = {vals.get('self.frozen_zeros')}", "encoder's configuration", "polar BP does not take the frozen value from the encoder")
